@@ -126,7 +126,7 @@ def gen_plan(tape, cfg):
             binders = []
             for n_, s_ in t[1]:
                 s2 = ["S", "%s_%d" % (s_[1], e)] if bp.is_usort(s_) else s_
-                newname[n_] = ("%s_%s" % (n_.split("_")[0], s2[1]) if bp.is_usort(s_) else n_, s2)
+                newname[n_] = ("%s_%s" % (n_.split("_", 1)[0], s2[1]) if bp.is_usort(s_) else n_, s2)
                 binders.append([newname[n_][0], s2])
 
             def rebind(x):
